@@ -1,7 +1,7 @@
 """C03 Returned L and U are structurally well-formed  —  wiring of L/U to the filled arrays, count/fix-up order, R9 + twins.  (R5a capacity clause: see C19/C07.)"""
 from ..facts import Program
 from ..run import Check, AnalysisBroken
-from ..rules import factor_tail, r9_sibling, r5_grow
+from ..rules import factor_tail, r9_sibling, r5_grow, r11_kinds
 from . import _drv
 
 R9_UNITS = ['gstrf.c', 'column_dfs.c', 'snode_dfs.c', 'copy_to_ucol.c', 'pruneL.c', 'panel_dfs.c', 'util.c', 'memory.c']
@@ -23,6 +23,7 @@ def run(tier):
     for cfgname in cfgs:
         prog = Program.load(which=('SRC',), cfg=cfgname)
         chk.clause('C03.D1', 'L/U wired to the filled arrays; count and fix-up before the wrap')
+        r11_kinds.run(chk, 'C03.kinds', prog, cfgname, floor=1900)
         n = 0
         for p in _drv.PRECS:
             n += factor_tail.run(chk, 'C03.D1', prog, p, cfgname)
